@@ -34,6 +34,7 @@ type sop struct {
 	E    int    `json:"e,omitempty"`   // cancel / release: element id (= index among accepted adds)
 	FC   bool   `json:"fc,omitempty"`
 	FI   bool   `json:"fi,omitempty"`
+	FP   bool   `json:"fp,omitempty"`  // shutdown: PanicOnModificationsAfterShutdown (not a parameter of the model: a refused modification = no state change; the outcome class nil / panic is judged Go-side)
 	Far  int    `json:"far,omitempty"` // add: extreme instant (farTable rank; > 0 never due, < 0 long past) instead of Off
 	Rep  int    `json:"rep,omitempty"` // add: representation of the instant (extreme.go: rep)
 }
@@ -71,6 +72,18 @@ type obsT struct {
 	Size     int   // -1 = the operation hung
 	Started  []int // sorted
 	Finished []int
+	Panic    bool // the operation panicked (recovered by the caller); not part of the Coq observation: see scriptOracle
+}
+
+// try runs f the way a caller that uses PanicOnModificationsAfterShutdown does: under recover
+func try(f func()) (panicked bool) {
+	defer func() {
+		if r := recover(); r != nil {
+			panicked = true
+		}
+	}()
+	f()
+	return false
 }
 
 func (o obsT) coq() string {
@@ -82,7 +95,7 @@ func (o obsT) coq() string {
 	return fmt.Sprintf("(%s, %d, %s, %s)", r, o.Size, vx.ListOf(o.Started, f), vx.ListOf(o.Finished, f))
 }
 
-func (o obsT) key() string { return o.coq() }
+func (o obsT) key() string { return o.coq() + fmt.Sprint(o.Panic) }
 
 // guard runs f under a watchdog: a hang becomes an outcome.
 func guard(f func()) bool {
@@ -141,6 +154,7 @@ func runScript(nw, maxsz int, ops []sop, win time.Duration) []obsT {
 	for _, op := range ops {
 		ret := -1
 		hung := false
+		panicked := false
 		switch op.Kind {
 		case "add":
 			id := len(elems)
@@ -167,11 +181,13 @@ func runScript(nw, maxsz int, ops []sop, win time.Duration) []obsT {
 			}
 			var task *timed.ScheduledTask
 			hung = !guard(func() {
-				if op.Key < 0 {
-					task = te.Executor.ExecuteAt(cb, at)
-				} else {
-					task = te.ExecuteAt(op.Key, cb, at)
-				}
+				panicked = try(func() {
+					if op.Key < 0 {
+						task = te.Executor.ExecuteAt(cb, at)
+					} else {
+						task = te.ExecuteAt(op.Key, cb, at)
+					}
+				})
 			})
 			ret = 0
 			if task != nil {
@@ -183,11 +199,11 @@ func runScript(nw, maxsz int, ops []sop, win time.Duration) []obsT {
 			}
 		case "cancel":
 			if op.E < len(elems) {
-				hung = !guard(func() { elems[op.E].Cancel() })
+				hung = !guard(func() { panicked = try(func() { elems[op.E].Cancel() }) })
 			}
 		case "tcancel":
 			var c bool
-			hung = !guard(func() { c = te.Cancel(op.Key) })
+			hung = !guard(func() { panicked = try(func() { c = te.Cancel(op.Key) }) })
 			ret = 0
 			if c {
 				ret = 1
@@ -207,15 +223,18 @@ func runScript(nw, maxsz int, ops []sop, win time.Duration) []obsT {
 			if op.FI {
 				fl = append(fl, timed.IgnorePendingTimeouts)
 			}
+			if op.FP {
+				fl = append(fl, timed.PanicOnModificationsAfterShutdown)
+			}
 			fl = append(fl, timed.DontWaitForShutdown)
-			hung = !guard(func() { te.Shutdown(fl...) })
+			hung = !guard(func() { panicked = try(func() { te.Shutdown(fl...) }) })
 		}
 		r.settle(te, win)
 		sz, s, f := r.snap(te)
 		if hung {
 			sz = -1
 		}
-		out = append(out, obsT{Ret: ret, Size: sz, Started: s, Finished: f})
+		out = append(out, obsT{Ret: ret, Size: sz, Started: s, Finished: f, Panic: panicked})
 	}
 	// clean-up: free every goroutine
 	for id, ch := range rel {
@@ -223,7 +242,7 @@ func runScript(nw, maxsz int, ops []sop, win time.Duration) []obsT {
 			close(ch)
 		}
 	}
-	te.Shutdown(timed.CancelPendingElements, timed.DontWaitForShutdown)
+	try(func() { te.Shutdown(timed.CancelPendingElements, timed.DontWaitForShutdown) }) // panics when the scenario shut down with the panic flag
 	for _, e := range elems {
 		e.Cancel()
 	}
@@ -250,6 +269,7 @@ func directedScripts() []script {
 	tc := func(k int) sop { return sop{Kind: "tcancel", Key: k} }
 	rl := func(e int) sop { return sop{Kind: "release", E: e} }
 	sh := func(fc, fi bool) sop { return sop{Kind: "shutdown", FC: fc, FI: fi} }
+	shp := func(fc, fi bool) sop { return sop{Kind: "shutdown", FC: fc, FI: fi, FP: true} }
 	far := func(key, rank, rp int, b bool) sop { return sop{Kind: "add", Key: key, Far: rank, Rep: rp, B: b} }
 	return []script{
 		// D18a: re-schedule while the previous callback of the identifier runs; then Cancel; then a third task
@@ -267,6 +287,12 @@ func directedScripts() []script {
 		{2, 0, []sop{add(0, 3, false), add(1, 2, false), add(2, 1, false), sh(false, true), add(0, -1, false), tc(0)}, "shutdown-ignore"},
 		{2, 0, []sop{add(0, 3, false), add(1, 2, false), add(2, 1, false), sh(true, false), add(0, -1, false), tc(0), tc(1)}, "shutdown-cancel"},
 		{1, 0, []sop{add(0, -1, true), add(1, -1, false), add(2, 1, false), sh(true, true), rl(0), tc(1)}, "shutdown-both"},
+		// PanicOnModificationsAfterShutdown: the refused add / the second Shutdown panic (recovered by the caller) and change
+		// nothing; what was pending at the Shutdown (behind a busy worker / not due) is still delivered resp. cancellable
+		{1, 0, []sop{add(0, -1, true), add(1, -1, false), add(2, -2, false), shp(false, false), add(2, -1, false), add(-1, -1, false), rl(0), tc(1), tc(2), sh(true, false)}, "shutdown-panic"},
+		{2, 0, []sop{add(0, -1, true), add(1, -1, true), add(2, -1, false), add(0, 2, false), shp(false, true), add(0, -1, false), tc(2), rl(0), rl(1), tc(0), shp(false, false)}, "shutdown-panic-ignore"},
+		{1, 0, []sop{add(0, -1, true), add(1, -1, false), add(2, 3, false), shp(true, false), add(1, -1, false), tc(1), rl(0), tc(2), sh(false, false)}, "shutdown-panic-cancel"},
+		{0, 0, []sop{add(0, 1, false), add(1, 2, false), shp(false, false), add(2, 1, false), tc(0), tc(2), add(1, 1, false), tc(1)}, "shutdown-panic-noworker"},
 		// direct Cancel() on the returned task bypasses the identifier map
 		{1, 0, []sop{add(0, 2, false), {Kind: "cancel", E: 0}, tc(0), add(0, -1, false), tc(0)}, "direct-cancel"},
 		// extreme instants: while the only worker is busy, elements beyond 2262 / before 1678 / at the zero time and due
@@ -327,7 +353,7 @@ func genScript(r *vx.Rng, maxLen int) script {
 				sc.Ops = append(sc.Ops, sop{Kind: "release", E: r.Intn(accepted + 2)})
 			}
 		default:
-			sc.Ops = append(sc.Ops, sop{Kind: "shutdown", FC: r.Chance(1, 3), FI: r.Chance(1, 2)})
+			sc.Ops = append(sc.Ops, sop{Kind: "shutdown", FC: r.Chance(1, 3), FI: r.Chance(1, 2), FP: r.Chance(2, 5)})
 			shut = true
 		}
 	}
@@ -347,10 +373,22 @@ func scriptOracle(sc script, o []obsT) string {
 	tracked := map[int]int{} // identifier -> element id of its last accepted add
 	dead := map[int]bool{}
 	id := 0
+	shut, fp := false, false // a Shutdown took effect / it had PanicOnModificationsAfterShutdown (later Shutdowns change nothing)
 	for i, op := range sc.Ops {
 		ob := o[i]
 		if ob.Size < 0 {
 			return fmt.Sprintf("operation %d hung", i)
+		}
+		// outcome class: exactly the modifications (Add / ExecuteAt, a further Shutdown) after a Shutdown with the panic flag panic
+		wantPanic := shut && fp && (op.Kind == "add" || op.Kind == "shutdown")
+		if ob.Panic != wantPanic {
+			return fmt.Sprintf("operation %d (%s): panicked=%v, expected %v (shut down=%v with PanicOnModificationsAfterShutdown=%v)", i, op.Kind, ob.Panic, wantPanic, shut, fp)
+		}
+		if op.Kind == "add" && shut && ob.Ret == 1 {
+			return fmt.Sprintf("operation %d: add accepted after Shutdown", i)
+		}
+		if op.Kind == "shutdown" && !shut {
+			shut, fp = true, op.FP
 		}
 		if sc.MaxSz > 0 && ob.Size > sc.MaxSz {
 			return fmt.Sprintf("size %d exceeds the bound after op %d", ob.Size, i)
@@ -456,7 +494,9 @@ func (h hev) coq() string {
 }
 
 type plan struct {
-	Executor bool     `json:"executor"` // else Queue with pollers
+	Executor bool     `json:"executor"`       // else Queue with pollers
+	Task     bool     `json:"task,omitempty"` // Executor only: a TaskExecutor, every add under an identifier of its own (ExecuteAt / ExecuteAfter)
+	Tag      string   `json:"tag,omitempty"`
 	NW       int      `json:"workers"`
 	Slots    int      `json:"slots"`
 	Ops      []planOp `json:"ops"`
@@ -470,6 +510,7 @@ type planOp struct {
 	E       int    `json:"e,omitempty"`
 	FC      bool   `json:"fc,omitempty"`
 	FI      bool   `json:"fi,omitempty"`
+	FP      bool   `json:"fp,omitempty"`  // shutdown: PanicOnModificationsAfterShutdown; a shutdown op after the first one is a further Shutdown call (changes nothing)
 	Far     int    `json:"far,omitempty"` // add: extreme instant (farTable rank) instead of the slot
 	Rep     int    `json:"rep,omitempty"` // add: representation of the instant
 }
@@ -486,6 +527,7 @@ const stampBase = 10_000_000 // microseconds; keeps "past" due times positive
 
 func genPlan(r *vx.Rng, gridMs int) plan {
 	p := plan{Executor: r.Bool(), NW: 1 + r.Intn(3), Slots: 7 + r.Intn(5), GridMs: gridMs}
+	p.Task = p.Executor && r.Bool()
 	type el struct{ dueSlot int }
 	var els []el
 	shutAt := -1
@@ -504,7 +546,10 @@ func genPlan(r *vx.Rng, gridMs int) plan {
 			els = append(els, el{s})
 		}
 		if s == shutAt {
-			p.Ops = append(p.Ops, planOp{Slot: s, Kind: "shutdown", FC: r.Chance(1, 4), FI: r.Chance(1, 3)})
+			p.Ops = append(p.Ops, planOp{Slot: s, Kind: "shutdown", FC: r.Chance(1, 4), FI: r.Chance(1, 3), FP: r.Chance(2, 5)})
+		}
+		if shutAt >= 0 && s > shutAt && r.Chance(1, 6) { // a further Shutdown with flags of its own: changes nothing
+			p.Ops = append(p.Ops, planOp{Slot: s, Kind: "shutdown", FC: r.Bool(), FI: r.Bool(), FP: r.Bool()})
 		}
 		k := r.Intn(3)
 		for j := 0; j < k; j++ {
@@ -529,6 +574,29 @@ func genPlan(r *vx.Rng, gridMs int) plan {
 	return p
 }
 
+// directedPlans: every shutdown flag combination with PanicOnModificationsAfterShutdown on every target (Queue with pollers /
+// Executor / TaskExecutor), elements pending at the Shutdown, refused modifications (Add / ExecuteAt / ExecuteAfter / a
+// further Shutdown with other flags) and Cancels after it while elements are still pending; plus the TaskExecutor
+// without the panic flag
+func directedPlans(gridMs int) (ps []plan) {
+	mk := func(executor, task bool, nw int, fc, fi, fp bool) plan {
+		a := func(s, d int) planOp { return planOp{Slot: s, Kind: "add", DueSlot: d} }
+		return plan{Executor: executor, Task: task, NW: nw, Slots: 7, GridMs: gridMs, Tag: "directed", Ops: []planOp{
+			a(0, 2), a(0, 4), a(0, 5), a(1, 3), a(1, 0),
+			{Slot: 2, Kind: "shutdown", FC: fc, FI: fi, FP: fp}, a(2, 3), a(2, 1),
+			a(3, 2), {Slot: 3, Kind: "cancel", E: 2}, {Slot: 3, Kind: "shutdown", FC: true, FI: !fi, FP: !fp},
+			{Slot: 4, Kind: "cancel", E: 0}, a(4, 6),
+		}}
+	}
+	for _, t := range [][2]bool{{true, true}, {true, false}, {false, false}} {
+		for i, f := range [][3]bool{{false, false, true}, {false, true, true}, {true, false, true}} {
+			ps = append(ps, mk(t[0], t[1], 1+i%2, f[0], f[1], f[2]))
+		}
+	}
+	ps = append(ps, mk(true, true, 2, false, false, false), mk(true, true, 1, false, true, false))
+	return ps
+}
+
 // runPlan executes the plan in real time and returns the recorded history (oldest first).
 func runPlan(p plan) (hist []hev, notes []string) {
 	grid := time.Duration(p.GridMs) * time.Millisecond
@@ -545,7 +613,11 @@ func runPlan(p plan) (hist []hev, notes []string) {
 	var q *timed.Queue[int]
 	var ex *timed.Executor
 	var pollers sync.WaitGroup
-	if p.Executor {
+	var te *timed.TaskExecutor[int]
+	if p.Task {
+		te = timed.NewTaskExecutor[int](p.NW)
+		ex = te.Executor
+	} else if p.Executor {
 		ex = timed.NewExecutor(p.NW)
 	} else {
 		q = timed.NewQueue[int]()
@@ -567,35 +639,70 @@ func runPlan(p plan) (hist []hev, notes []string) {
 	var xelems []*timed.ScheduledTask
 	nacc := 0
 	var maxDue int64
-	isFC, shutdown := false, false
+	isFC, isFP, shutdown := false, false, false
 	shutRet := make(chan struct{})
 	var farIDs []int
-	cancelElem := func(e int) {
-		if p.Executor {
-			xelems[e].Cancel()
-		} else {
-			qelems[e].Cancel()
+	// every client operation runs under recover and a watchdog; its outcome class (returned / panicked / hung) is an
+	// observation: exactly the modifications after a Shutdown with PanicOnModificationsAfterShutdown panic
+	hungOp := false
+	client := func(what string, wantPanic bool, f func()) {
+		if hungOp {
+			return
 		}
+		var panicked bool
+		if !guard(func() { panicked = try(f) }) {
+			hungOp = true
+			notes = append(notes, what+" hung (no further client operation is executed)")
+			return
+		}
+		if panicked != wantPanic {
+			notes = append(notes, fmt.Sprintf("%s: panicked=%v, expected %v (shut down=%v with PanicOnModificationsAfterShutdown=%v)", what, panicked, wantPanic, shutdown, isFP))
+		}
+	}
+	cancelElem := func(e int) {
+		if hungOp {
+			return
+		}
+		client("Cancel", false, func() {
+			if p.Task {
+				te.Cancel(e)
+			} else if p.Executor {
+				xelems[e].Cancel()
+			} else {
+				qelems[e].Cancel()
+			}
+		})
 		hist = append(hist, hev{Kind: "cancel", E: e, At: stamp()})
 	}
-	doShutdown := func(fc, fi bool) {
-		for _, e := range farIDs { // the never-due elements would keep their pollers for ever
-			cancelElem(e)
-		}
-		var fl []timed.ShutdownFlag
+	flagsOf := func(fc, fi, fp bool) (fl []timed.ShutdownFlag) {
 		if fc {
 			fl = append(fl, timed.CancelPendingElements)
 		}
 		if fi {
 			fl = append(fl, timed.IgnorePendingTimeouts)
 		}
+		if fp {
+			fl = append(fl, timed.PanicOnModificationsAfterShutdown)
+		}
+		return fl
+	}
+	doShutdown := func(fc, fi, fp bool) {
+		for _, e := range farIDs { // the never-due elements would keep their pollers for ever
+			cancelElem(e)
+		}
+		fl := flagsOf(fc, fi, fp)
 		hist = append(hist, hev{Kind: "shutdown", FC: fc, FI: fi, At: stamp()})
-		shutdown, isFC = true, fc
 		// the shutdown itself is synchronous (no Add runs concurrently with it); waiting for the workers is not
-		if p.Executor {
-			ex.Shutdown(append(fl, timed.DontWaitForShutdown)...)
-		} else {
-			q.Shutdown(fl...)
+		client("Shutdown", false, func() {
+			if p.Executor {
+				ex.Shutdown(append(fl, timed.DontWaitForShutdown)...)
+			} else {
+				q.Shutdown(fl...)
+			}
+		})
+		shutdown, isFC, isFP = true, fc, fp
+		if p.Executor && fp {
+			return // a further Shutdown would panic: the end of the run polls the deliveries instead
 		}
 		go func() {
 			if p.Executor {
@@ -621,16 +728,29 @@ func runPlan(p plan) (hist []hev, notes []string) {
 			if op.Far != 0 {
 				dueStamp = farStamp(op.Far)
 			}
-			if p.Executor {
-				t := ex.ExecuteAt(func() { record(id) }, when)
-				if ok = t != nil; ok {
-					xelems = append(xelems, t)
+			client("Add", shutdown && isFP, func() {
+				if p.Executor {
+					var t *timed.ScheduledTask
+					switch {
+					case p.Task && op.Far == 0 && op.Rep == 0:
+						t = te.ExecuteAfter(id, func() { record(id) }, time.Until(when))
+					case p.Task:
+						t = te.ExecuteAt(id, func() { record(id) }, when)
+					default:
+						t = ex.ExecuteAt(func() { record(id) }, when)
+					}
+					if ok = t != nil; ok {
+						xelems = append(xelems, t)
+					}
+				} else {
+					t := q.Add(id+1, when)
+					if ok = t != nil; ok {
+						qelems = append(qelems, t)
+					}
 				}
-			} else {
-				t := q.Add(id+1, when)
-				if ok = t != nil; ok {
-					qelems = append(qelems, t)
-				}
+			})
+			if ok && shutdown {
+				notes = append(notes, "Add accepted after Shutdown")
 			}
 			if ok {
 				hist = append(hist, hev{Kind: "add", E: id, Due: dueStamp, At: at})
@@ -653,12 +773,23 @@ func runPlan(p plan) (hist []hev, notes []string) {
 			}
 		case "shutdown":
 			if !shutdown {
-				doShutdown(op.FC, op.FI)
+				doShutdown(op.FC, op.FI, op.FP)
+			} else {
+				// a further Shutdown (flags of its own) changes nothing - in particular it does not adopt CancelPendingElements /
+				// IgnorePendingTimeouts - and panics iff the first one had the panic flag
+				fl := flagsOf(op.FC, op.FI, op.FP)
+				client("second Shutdown", isFP, func() {
+					if p.Executor {
+						ex.Shutdown(append(fl, timed.DontWaitForShutdown)...)
+					} else {
+						q.Shutdown(fl...)
+					}
+				})
 			}
 		}
 	}
 	if !shutdown {
-		doShutdown(false, false)
+		doShutdown(false, false, false)
 	}
 	cancelled := map[int]bool{}
 	for _, h := range hist {
@@ -669,7 +800,30 @@ func runPlan(p plan) (hist []hev, notes []string) {
 	// wait: Shutdown must return once every pending element had its time (3 s of slack), then one more grid step
 	// for late duplicates
 	limit := time.Duration(maxDue-stampBase)*time.Microsecond + 3*time.Second
-	if d := time.Until(start.Add(limit)); d > 0 {
+	if p.Executor && isFP {
+		// no Shutdown call to wait for (it would panic): wait until every accepted, not cancelled element was delivered
+		// (CancelPendingElements: the workers are gone at once, two grid steps for deliveries in flight); judged below
+		for time.Now().Before(start.Add(limit)) {
+			if isFC {
+				time.Sleep(2 * grid)
+				break
+			}
+			got := map[int]bool{}
+			mu.Lock()
+			for _, h := range delivered {
+				got[h.E] = true
+			}
+			mu.Unlock()
+			all := true
+			for e := 0; e < nacc; e++ {
+				all = all && (got[e] || cancelled[e])
+			}
+			if all {
+				break
+			}
+			time.Sleep(time.Millisecond)
+		}
+	} else if d := time.Until(start.Add(limit)); d > 0 {
 		if !waitFor(shutRet, d) {
 			notes = append(notes, "Shutdown did not return within 3 s after the last scheduled time")
 		}
@@ -856,9 +1010,12 @@ func main() {
 	}
 
 	// timing histories
-	plans := make([]plan, *nHists)
-	for i := range plans {
-		plans[i] = genPlan(r.Fork(), *gridMs)
+	plans := directedPlans(*gridMs)
+	if len(plans) > *nHists {
+		plans = plans[:*nHists]
+	}
+	for len(plans) < *nHists {
+		plans = append(plans, genPlan(r.Fork(), *gridMs))
 	}
 	type hres struct {
 		h []hev
